@@ -39,7 +39,7 @@ fn main() {
         .ok()
         .and_then(|s| s.parse().ok())
         .unwrap_or(match tier {
-            Tier::Quick => 240.0,
+            Tier::Quick => 400.0,
             Tier::Thorough => 1500.0,
         });
     let ctx = Ctx { property: prop.clone(), tier, seed, start: Instant::now(), soft_cap_s };
